@@ -14,11 +14,13 @@ def run(ctx):
     binp = snapalg.build()
     run_ = snapalg.Run(ctx)
     if ctx.tier == "quick":
-        fams, nb, seeds, par = ["SnapQuick", "SnapBaseQuick", "SnapReuse", "SnapLimitQuick"], 60, 1, 6
+        fams, nb, seeds, par = ["SnapQuick", "SnapBaseQuick", "SnapReuse", "SnapLimitQuick", "ChainSnapQuick", "Api"], 60, 1, 6
+        more_b = [("chainsnap", 4), ("api", 30)]
     else:
-        fams, nb, seeds, par = ["SnapThorough", "SnapBaseThorough", "SnapReuse", "SnapLimitThoroughA", "SnapLimitThoroughB"], 400, 6, 8
+        fams, nb, seeds, par = ["SnapThorough", "SnapBaseThorough", "SnapReuse", "SnapLimitThoroughA", "SnapLimitThoroughB", "ChainSnapThorough", "Api"], 400, 6, 8
+        more_b = [("chainsnap", 30), ("api", 300)]
     paths = snapalg.run_all(ctx, run_, binp, fams, fams, "snap", nb, seeds=seeds, par=par,
-                            law_workers=2 if ctx.tier == "quick" else 4)
+                            law_workers=2 if ctx.tier == "quick" else 4, more_b=more_b)
     if ctx.tier == "thorough" and paths:
         def mut(ev):
             ev["copies"][0]["obs"]["crc"] ^= 1
